@@ -192,7 +192,13 @@ Verdict judgeC11(const Outcome& A, const Outcome& B) {
     if (A.status != B.status) return {"status_differs", "baseline status " + std::to_string(A.status) + " (" + A.message + ") vs " + std::to_string(B.status) + " (" + B.message + ")"};
     if (A.message != B.message) return {"diagnostic_differs", "'" + A.message + "' vs '" + B.message + "'"};
     std::string d = firstDiff(A.echoes.empty() && A.status == 0 ? std::vector<std::string>{A.out} : A.echoes, B.echoes.empty() && B.status == 0 ? std::vector<std::string>{B.out} : B.echoes);
-    if (!d.empty()) return {"output_differs_from_gc_never", d};
+    if (!d.empty()) {
+        // same lines in another order (something ran at a different time) vs different lines (something was lost or duplicated)
+        std::vector<std::string> a = A.echoes, b = B.echoes;
+        std::sort(a.begin(), a.end());
+        std::sort(b.begin(), b.end());
+        return {a == b ? "output_order_differs_from_gc_never" : "output_differs_from_gc_never", d};
+    }
     if (A.out != B.out) return {"output_differs_from_gc_never", "stdout differs"};
     if (A.err != B.err) return {"stderr_differs", "'" + A.err.substr(0, 200) + "' vs '" + B.err.substr(0, 200) + "'"};
     if (A.tracked != B.tracked) return {"tracked_differs", A.tracked + " vs " + B.tracked};
@@ -233,7 +239,7 @@ Json schedToJson(const gcs::Schedule& s) {
         for (auto y : s.ticks) t.push(Json((unsigned)y));
         j.set("tick_at_yield", t);
     }
-    j.set("notify", s.notifyLost ? "lost" : "delivered").set("inject_error_at_yield", Json((long long)s.injectErrorAtYield));
+    j.set("notify", s.notifyLost ? "lost" : "delivered").set("inject_error_at_yield", Json((long long)s.injectErrorAtYield)).set("inject_kind", s.injectKind);
     return j;
 }
 gcs::Schedule schedFromJson(const Json& j) {
@@ -249,6 +255,7 @@ gcs::Schedule schedFromJson(const Json& j) {
     }
     s.notifyLost = j.at("notify").asStr() == "lost";
     s.injectErrorAtYield = j.at("inject_error_at_yield").asInt(-1);
+    s.injectKind = (int)j.at("inject_kind").asInt(0);
     return s;
 }
 Json planToJson(const Plan& p, bool withSource = true) {
@@ -269,6 +276,7 @@ gcs::Schedule baselineOf(const gcs::Schedule& s) {
     b.baseline = true;
     b.notifyLost = false;
     b.injectErrorAtYield = s.injectErrorAtYield;
+    b.injectKind = s.injectKind;
     return b;
 }
 
@@ -300,7 +308,7 @@ std::string signatureFor(const Plan& p, const std::string& cls) {
     for (auto& st : p.prog.main) t.insert(classprog::tplName(st.tpl));
     bool hasDtorErr = t.count("e_dtor_err") > 0;
     bool hasQcycle = t.count("qubit_owner_in_garbage_cycle") > 0;
-    if (hasQcycle && (cls == "swept_object_alive" || cls == "output_differs_from_gc_never" || cls == "qasm_differs" || cls == "statement_count_differs" || cls == "stderr_differs")) return "qubit_owner_in_garbage_cycle_dies_at_collection";
+    if (hasQcycle && (cls == "swept_object_alive" || cls == "output_order_differs_from_gc_never" || cls == "qasm_differs" || cls == "statement_count_differs" || cls == "stderr_differs")) return "qubit_owner_in_garbage_cycle_dies_at_collection";
     std::string s = cls;
     if (hasDtorErr && (cls == "terminate" || cls.rfind("signal:6", 0) == 0 || cls == "raw_cpp_exception")) return "terminate:error_in_user_destructor";
     s += "|";
@@ -319,6 +327,7 @@ Plan generatePlan(uint64_t seed, uint64_t run, const std::string& property, bool
     // likewise for the qubit-owner-in-a-garbage-cycle feature (known finding D19): 3 % of C11 programs
     bool qcycle = allowQcycle && property == "C11" && knob.chance(0.03);
     p.prog = classprog::generate(gen, edge, dtorErr, qcycle);
+    if (property == "C12" && knob.chance(0.01)) { p.prog.main.clear(); p.prog.speculative = (int)knob.below(4); }
     gcs::Schedule& s = p.sched;
     s.generative = true;
     s.genSeed = sch.next();
@@ -339,6 +348,8 @@ void runOne(const sim::Options& opt, uint64_t run, sim::RunReport& rep, bool all
 
     // dry baseline without injection to learn the number of yields
     Outcome dry = execute(src, baselineOf(gcs::Schedule{}));
+    if (dry.status == 9 && p.prog.speculative >= 0) { rep.count("speculative_program_rejected_by_front_end"); return; }
+    if (p.prog.speculative >= 0) rep.count("speculative_program_accepted");
     if (dry.status == 9) {
         rep.count("harness.rejected_program");
         fprintf(stderr, "rejected program (run %llu): %s\n", (unsigned long long)run, dry.message.c_str());
@@ -346,6 +357,8 @@ void runOne(const sim::Options& opt, uint64_t run, sim::RunReport& rep, bool all
     }
     double injectShare = opt.property == "C12" ? 0.5 : 0.33;
     if (dry.yields > 0 && knob2.chance(injectShare)) p.sched.injectErrorAtYield = (int64_t)fault.below(dry.yields);
+    // the run may also be ended by an exception that is not a BlochError (C11 only: for C12 such an ending would be judged)
+    if (opt.property == "C11" && p.sched.injectErrorAtYield >= 0 && run % 5 == 4) p.sched.injectKind = 1;
     // burst modes: explicit single tick / few ticks
     int burst = (int)knob2.below(10);
     if (burst < 2 && dry.yields > 0) {
@@ -371,6 +384,7 @@ void runOne(const sim::Options& opt, uint64_t run, sim::RunReport& rep, bool all
     rep.count("gc.timer_threads_started", B.stats.threadsStarted + e.A.stats.threadsStarted);
     rep.count("gc.timer_threads_exited", B.stats.threadsExited + e.A.stats.threadsExited);
     if (p.sched.injectErrorAtYield >= 0) rep.count("fault.error_injected");
+    if (p.sched.injectErrorAtYield >= 0 && p.sched.injectKind == 1) rep.count("fault.non_bloch_exception_injected");
     if (B.status == 1) rep.count("end.runtime_error");
     if (B.status == 0) rep.count("end.normal");
     if (p.sched.jumpAtYield >= 0) rep.count("fault.clock_jump_configured");
@@ -589,6 +603,7 @@ int main(int argc, char** argv) {
             uint64_t yields = strtoull(dr.out.c_str(), nullptr, 10);
             double injectShare = opt.property == "C12" ? 0.5 : 0.33;
             if (yields > 0 && knob2.chance(injectShare)) q.sched.injectErrorAtYield = (int64_t)fault.below(yields);
+            if (opt.property == "C11" && q.sched.injectErrorAtYield >= 0 && c.run % 5 == 4) q.sched.injectKind = 1;
             int burst = (int)knob2.below(10);
             if (burst < 2 && yields > 0) {
                 q.sched.generative = false;
